@@ -462,7 +462,12 @@ def corr_run(ctx, stream, preamble, fn, eqb, cases, shard=400, timeout=900, ty=N
     jobs = []
     for k in range(0, len(cases), shard):
         chunk = cases[k:k + shard]
-        body = [preamble, "\nDefinition cases_ %s:= [\n" % (f": list ({ty}) " if ty else "")]
+        tyann = ""
+        if isinstance(ty, tuple):
+            tyann = f": list (({ty[0]}) * ({ty[1]})) "
+        elif ty:
+            tyann = f": list ({ty}) "
+        body = [preamble, "\nDefinition cases_ %s:= [\n" % tyann]
         body.append(";\n".join(f"({i}, {e})" for i, e, _ in chunk))
         body.append("\n].\n")
         body.append(f"Eval vm_compute in (mismatches ({eqb}) ({fn}) cases_).\n")
@@ -477,7 +482,8 @@ def corr_run(ctx, stream, preamble, fn, eqb, cases, shard=400, timeout=900, ty=N
     ctx.traces += len(cases)
     if bad:
         show = bad[:5]
-        body = [preamble, "\nDefinition inputs_ := [\n", ";\n".join(cases[i][0] for i in show), "\n].\n",
+        ity = f": list ({ty[0]}) " if isinstance(ty, tuple) else ""
+        body = [preamble, "\nDefinition inputs_ %s:= [\n" % ity, ";\n".join(cases[i][0] for i in show), "\n].\n",
                 f"Eval vm_compute in (map ({fn}) inputs_).\n"]
         try:
             vals = coq_eval(f"{ctx.cid}_{stream}_show".replace("-", "_"), "".join(body), timeout)
